@@ -7,6 +7,6 @@ require (
 	pgregory.net/rapid v1.3.0
 )
 
-require github.com/bits-and-blooms/bitset v1.24.4 // indirect
+require github.com/bits-and-blooms/bitset v1.24.4
 
 replace github.com/RoaringBitmap/roaring/v2 => /repo
